@@ -1232,11 +1232,13 @@ class ClientSession:
                 headers = CIMultiDict(headers)
             added_names: set[str] = set()
             for key, value in headers.items():
-                if key in added_names:
+                # Field names are case-insensitive, as in the CIMultiDict
+                name = key.lower()
+                if name in added_names:
                     result.add(key, value)
                 else:
                     result[key] = value
-                    added_names.add(key)
+                    added_names.add(name)
         return result
 
     def _get_netrc_auth(self, host: str) -> str | None:
